@@ -157,17 +157,28 @@ pub fn ranked_key(s: &Schedule) -> String {
             }
             k.push(')');
         }
-        // hidden state of the transition: which (empty) cycle slot a new one-vehicle cycle would take
-        let tr = s.next_day_transition_of(vt);
+        // hidden state of the transition: the order in which (empty) cycle slots would be reused by new
+        // one-vehicle cycles (the stack of reusable empty cycles), probed until a fresh slot is appended
+        let mut tr = s.next_day_transition_of(vt).clone();
         if let Some(t) = s.get_tours().values().next() {
-            let before: Vec<usize> = tr.cycles_iter().map(|c| c.len()).collect();
-            let probe = std::panic::catch_unwind(std::panic::AssertUnwindSafe(|| tr.add_vehicle_to_own_cycle(VehicleIdx::Vehicle(u16::MAX), t, &nw)));
-            match probe {
-                Ok(t2) => {
-                    let slot = t2.cycles_iter().enumerate().find(|(i, c)| before.get(*i) != Some(&c.len())).map(|(i, _)| i as i64).unwrap_or(-1);
-                    let _ = write!(k, "slot{}", slot);
+            k.push_str("slots");
+            for j in 0..8u16 {
+                let before: Vec<usize> = tr.cycles_iter().map(|c| c.len()).collect();
+                let probe = std::panic::catch_unwind(std::panic::AssertUnwindSafe(|| tr.add_vehicle_to_own_cycle(VehicleIdx::Vehicle(u16::MAX - j), t, &nw)));
+                match probe {
+                    Ok(t2) => {
+                        let slot = t2.cycles_iter().enumerate().find(|(i, c)| before.get(*i) != Some(&c.len())).map(|(i, _)| i).unwrap_or(usize::MAX);
+                        let _ = write!(k, ",{}", slot as i64);
+                        if slot >= before.len() {
+                            break; // appended at the end: no reusable empty cycle left
+                        }
+                        tr = t2;
+                    }
+                    Err(_) => {
+                        k.push('!');
+                        break;
+                    }
                 }
-                Err(_) => k.push_str("slot!"),
             }
         }
         k.push(';');
